@@ -68,7 +68,7 @@ class BaseNode(Node):
     def cast_value(self, value=None):
         """ Cast (raw-)value as a datatype self, or another node
         """
-        if not value:
+        if value is None:
             if self.value is None:
                 value = self.value_raw
             else:
@@ -132,7 +132,7 @@ class BaseNode(Node):
         """
         if value is None and self.value_raw:
             self.value = self.cast_value()
-        elif value:
+        elif value is not None:
             self.value = value
         else:
             self.value = None
@@ -147,6 +147,10 @@ class BaseNode(Node):
         # copy value type modify values and units
         value = self.value.copy()
         value.value = self.cast_value(node.value_raw)
+        if value.value is None:   # none is assigned
+            value.unit = self.units_raw
+            self.value = value
+            return
         if isinstance(value, (IntegerType, FloatType)):
             value.unit = node.units_raw
             value.convert(self.units_raw, env)
